@@ -132,8 +132,20 @@ def _shadow(s, rate):
 
 
 def _refused_requests(obj, streams, V, site):
-    """Requests the library refuses (a negative and a fractional sample count) are not requests: no clock moves."""
+    """Requests the library refuses (a negative and a fractional sample count) are not requests: no clock moves.  Nor does a
+    refused set_time (an instant that is not a number) start a new observation."""
     clocks = [obj.t_start] + [s.t_start for s in streams]
+    flags = [obj.start_obs] + [s.start_obs for s in streams]
+    for bad in (None, 'noon'):
+        try:
+            obj.set_time(bad)
+        except Exception:
+            continue
+        return True
+    if [obj.start_obs] + [s.start_obs for s in streams] != flags or [obj.t_start] + [s.t_start for s in streams] != clocks:
+        V('refused_set_time_changed_state', 'set_time(None) / set_time(\'noon\') raised but changed the clock(s) / start flag(s): %r, %r -> %r, %r'
+          % (clocks, flags, [obj.t_start] + [s.t_start for s in streams], [obj.start_obs] + [s.start_obs for s in streams]), site)
+        return False
     for bad in (-3, 2.5):
         try:
             obj.get_samples(bad)
@@ -294,7 +306,7 @@ def apply_op(s, m, op, cfg, twin, V, site):
         m.c = F(op[1]); m.start = True; m.ops = 0; m.exact_next = True; m.set_float = float(op[1])
     elif kind == 'add':
         before = s.t_start
-        s.add_time(op[1])
+        s.add_time(np.float32(op[1]) if cfg.get('nform') == 'f32add' else op[1])      # (0.0 and 0.5 are exact in single precision)
         m.c = m.c + F(op[1]); m.start = True; m.ops += 1
         m.exact_next = True
         m.set_float = float(s.t_start)
@@ -530,7 +542,7 @@ def case_antenna(cfg):
             for m in ms:
                 m.c = F(op[1]); m.start = True; m.ops = 0; m.exact_next = True; m.set_float = float(op[1])
         elif op[0] == 'add':
-            a.add_time(op[1])
+            a.add_time(np.float32(op[1]) if cfg.get('nform') == 'f32add' else op[1])
             for m in ms:
                 m.c += F(op[1]); m.start = True; m.ops += 1; m.exact_next = True; m.set_float = float(a.t_start)
         elif op[0] == 'reset':
@@ -613,6 +625,9 @@ def run(ctx):
     # (sub-box) start time / sample rate / start frequency in other numeric forms (values exactly representable in them)
     nforms = [dict(c, nform=f) for c in cfgs if c['rate'] == 1e3 and c['t_start'] == 100.25 and c['seed'] == ctx.seed + 5
               and c['sources'] in ('chirp', 'noise+chirp+real', 'two_chirps') for f in ('f32time', 'arr0time', 'f32rate', 'uintf')]
+    # (sub-box) the step of add_time as a single-precision scalar, from a start time that single precision cannot hold
+    nforms += [dict(c, nform='f32add') for c in cfgs if c['rate'] == 1e3 and c['t_start'] == 0.0123456789 and c['seed'] == ctx.seed + 5
+               and c['sources'] in ('chirp', 'noise+chirp+real')]
     ctx.pmap(case_stream, cfgs + refuse + forms + nforms, chunk=1)
     ctx.pmap(case_compositions, [dict(c, N=N) for c in cfgs], chunk=2)
     ants = []
@@ -629,6 +644,8 @@ def run(ctx):
              and 'chirp' in a['sources']]
     ants += [dict(a, nform=f) for a in ants if a['rate'] == 1e3 and a['t_start'] == 100.25 and a['npol'] == 2 and 'y_sources' not in a
              and 'asc_form' not in a and a['sources'] == 'two_chirps' for f in ('f32time', 'arr0time', 'f32rate')]
+    ants += [dict(a, nform='f32add') for a in ants if a['rate'] == 1e3 and a['t_start'] == 0.0123456789 and a['npol'] == 2 and 'y_sources' not in a
+             and 'asc_form' not in a and 'nform' not in a and a['sources'] == 'two_chirps']
     ants += [dict(a, refuse=True) for a in ants if 'asc_form' not in a and 'nform' not in a and a['rate'] == 1e3 and a['t_start'] == 100.25 and a['npol'] == 2 and 'y_sources' not in a]
     ctx.pmap(case_antenna, ants, chunk=1)
     return ctx.finish(
